@@ -30,9 +30,11 @@ class ParserRoles:
         self.pm = pm
         need = ["parse", "command", "arguments", "argument", "stringlist", "up", "check_command_completion",
                 "reset_parser", "set_expected", "push_expected_bracket", "pop_expected_bracket"]
+        if any(n not in pm for n in need):
+            self._discover_methods(pm)
         for n in need:
             if n not in pm:
-                raise AnalysisError(rule, "Parser method %s not found" % n)
+                raise AnalysisError(rule, "Parser method %s not found (neither by name nor by role)" % n)
         self.parse = pm["parse"]
         self.command = pm["command"]
         self.arguments = pm["arguments"]
@@ -101,6 +103,120 @@ class ParserRoles:
         self._patterns = {}
         self._table = None
         self._reach = None
+        self._attr_roles = self._discover_attr_roles()
+
+    def _discover_methods(self, pm):
+        """Fill missing private-method roles from the shape of the code (used when methods were renamed)."""
+        M = self.Parser.methods
+        parse = pm.get("parse")
+        if parse is None:
+            return
+        sn = parse.params[0]
+
+        def self_calls_in(node):
+            return [c for c in walk_no_nested(node) if isinstance(c, ast.Call) and isinstance(c.func, ast.Attribute)
+                    and isinstance(c.func.value, ast.Name) and c.func.value.id in (sn, "self") and c.func.attr in M]
+        if "reset_parser" not in pm:
+            for st in parse.node.body:
+                if isinstance(st, ast.Expr) and isinstance(st.value, ast.Call) and st.value in self_calls_in(st):
+                    pm["reset_parser"] = M[st.value.func.attr]
+                    break
+        if "command" not in pm:
+            for lp in ast.walk(parse.node):
+                if isinstance(lp, ast.For) and isinstance(lp.target, ast.Tuple):
+                    names = [t.id for t in lp.target.elts if isinstance(t, ast.Name)]
+                    for c in self_calls_in(lp):
+                        if [a.id for a in c.args if isinstance(a, ast.Name)] == names:
+                            pm["command"] = M[c.func.attr]
+        cmd = pm.get("command")
+        if cmd is not None:
+            slot_targets = [a.value.attr for a in walk_no_nested(cmd.node) if isinstance(a, ast.Assign) and isinstance(a.value, ast.Attribute)
+                            and isinstance(a.value.value, ast.Name) and a.value.attr in M]
+            if "arguments" not in pm and slot_targets:
+                pm["arguments"] = M[slot_targets[0]]
+            if "up" not in pm:
+                for c in self_calls_in(cmd.node):
+                    g = M[c.func.attr]
+                    if any(isinstance(x, ast.Attribute) and x.attr == "result" and isinstance(x.ctx, ast.Store) for x in ast.walk(g.node)) and len(g.params) <= 2:
+                        pm["up"] = g
+        args = pm.get("arguments")
+        if args is not None:
+            for c in self_calls_in(args.node):
+                g = M[c.func.attr]
+                if len(g.params) == 3 and len(c.args) == 2 and "argument" not in pm and g is not args:
+                    if any(isinstance(a, ast.Assign) and isinstance(a.value, ast.Attribute) and a.value.attr in M for a in walk_no_nested(g.node)):
+                        pm["argument"] = g
+            for st in walk_no_nested(args.node):
+                if isinstance(st, ast.Return) and isinstance(st.value, ast.Call) and st.value in self_calls_in(st) and "check_command_completion" not in pm:
+                    g = M[st.value.func.attr]
+                    if g is not pm.get("argument"):
+                        pm["check_command_completion"] = g
+        arg = pm.get("argument")
+        if arg is not None and "stringlist" not in pm:
+            for a in walk_no_nested(arg.node):
+                if isinstance(a, ast.Assign) and isinstance(a.value, ast.Attribute) and a.value.attr in M:
+                    pm["stringlist"] = M[a.value.attr]
+        for n, g in M.items():
+            va = g.node.args.vararg
+            if va is not None and "set_expected" not in pm and any(
+                    isinstance(a, ast.Assign) and isinstance(a.value, ast.Name) and a.value.id == va.arg
+                    and any(isinstance(t, ast.Attribute) for t in a.targets) for a in walk_no_nested(g.node)):
+                pm["set_expected"] = g
+            taken = {id(pm[k]) for k in ("command", "arguments", "argument", "stringlist", "up", "check_command_completion", "reset_parser",
+                                           "set_expected", "push_expected_bracket", "pop_expected_bracket") if k in pm}
+            if len(g.params) == 3 and id(g) not in taken:
+                calls = {call_name(c) for c in walk_no_nested(g.node) if isinstance(c, ast.Call)}
+                if "append" in calls and "push_expected_bracket" not in pm and len(g.node.body) <= 3:
+                    pm["push_expected_bracket"] = g
+                elif "pop" in calls and "pop_expected_bracket" not in pm and any(isinstance(x, ast.Raise) for x in ast.walk(g.node)):
+                    pm["pop_expected_bracket"] = g
+
+    def _discover_attr_roles(self):
+        """Private attribute names of Parser by role (robust against renaming)."""
+        out = {"curcommand": "curcommand", "cstate": "cstate", "expected": "expected", "expected_brackets": "expected_brackets",
+               "curstringlist": "curstringlist"}
+        sn = self.command.params[0]
+        looked = {t.id for a in walk_no_nested(self.command.node) if isinstance(a, ast.Assign) and isinstance(a.value, ast.Call)
+                  and call_name(a.value) == self.lookup.name for t in a.targets if isinstance(t, ast.Name)}
+        for a in walk_no_nested(self.command.node):
+            if isinstance(a, ast.Assign) and isinstance(a.value, ast.Name) and a.value.id in looked:
+                for t in a.targets:
+                    if isinstance(t, ast.Attribute) and isinstance(t.value, ast.Name) and t.value.id == sn:
+                        out["curcommand"] = t.attr.lstrip("_")
+            if isinstance(a, ast.Assign) and isinstance(a.value, ast.Attribute) and isinstance(a.value.value, ast.Name) and a.value.value.id == sn \
+                    and a.value.attr in self.Parser.methods:
+                for t in a.targets:
+                    if isinstance(t, ast.Attribute):
+                        out["cstate"] = t.attr.lstrip("_")
+        for a in walk_no_nested(self.set_expected.node):
+            if isinstance(a, ast.Assign):
+                for t in a.targets:
+                    if isinstance(t, ast.Attribute):
+                        out["expected"] = t.attr.lstrip("_")
+        for c in walk_no_nested(self.push_bracket.node):
+            if isinstance(c, ast.Call) and call_name(c) == "append" and isinstance(c.func.value, ast.Attribute):
+                out["expected_brackets"] = c.func.value.attr.lstrip("_")
+            if isinstance(c, ast.AugAssign) and isinstance(c.target, ast.Attribute):
+                out["expected_brackets"] = c.target.attr.lstrip("_")
+        for c in walk_no_nested(self.stringlist.node):
+            if isinstance(c, ast.AugAssign) and isinstance(c.target, ast.Attribute):
+                out["curstringlist"] = c.target.attr.lstrip("_")
+            if isinstance(c, ast.Call) and call_name(c) == "append" and isinstance(c.func.value, ast.Attribute):
+                out["curstringlist"] = c.func.value.attr.lstrip("_")
+        return out
+
+    def an(self, role):
+        return self._attr_roles[role]
+
+    def role_of(self, func):
+        """canonical role name of a Parser method (independent of how it is spelled in the source)"""
+        for role, f in (("parse", self.parse), ("command", self.command), ("arguments", self.arguments), ("argument", self.argument),
+                        ("stringlist", self.stringlist), ("up", self.up), ("check_command_completion", self.completion),
+                        ("reset_parser", self.reset), ("set_expected", self.set_expected), ("push_expected_bracket", self.push_bracket),
+                        ("pop_expected_bracket", self.pop_bracket)):
+            if f is func:
+                return role
+        return func.name.lstrip("_")
 
     def pattern(self, name):
         if name not in self._patterns:
@@ -128,7 +244,8 @@ class ParserRoles:
         for f in prog.all_funcs():
             if f.module.name in ("parser", "commands", "tools"):
                 by_name.setdefault(_strip(f.name), []).append(f)
-        start = [self.parse]
+        start = [self.parse, self.command, self.arguments, self.argument, self.stringlist, self.up, self.completion, self.reset,
+                 self.set_expected, self.push_bracket, self.pop_bracket, self.scan]
         seen = {}
         todo = list(start)
         virtual = {"complete_cb", "reassign_arguments", "get_expected_first"}
